@@ -43,6 +43,11 @@ class Num:
 
 
 @dataclass(frozen=True)
+class Flat:
+    """a row-major flat index into a 2-D (…, rows, cols) array"""
+
+
+@dataclass(frozen=True)
 class Seq:
     items: tuple  # python tuple/list of abstract values
 
@@ -61,6 +66,7 @@ class KAT:
         self.clashes: list[tuple[ast.AST, str]] = []
         self.shape_axes = shape_axes or {-2: ROW, -1: COL}
         self.index_axes = index_axes or {}
+        self.image_like = set(image_like)
         self.facts: list[str] = []
 
     # ------------------------------------------------------------ helpers
@@ -87,6 +93,13 @@ class KAT:
         if isinstance(e, ast.UnaryOp):
             return self.ev(e.operand)
         if isinstance(e, ast.Attribute):
+            if e.attr == "shape":
+                t = self.index_axes.get(unparse(e.value))
+                if t and 0 in t and 1 in t:
+                    return Seq((Ext(t[0]), Ext(t[1])))
+                if unparse(e.value) in self.image_like:
+                    return Seq((Ext(ROW), Ext(COL)))
+                return None
             if e.attr in ("T", "real", "imag"):
                 return self.ev(e.value)
             d = dotted(e)
@@ -129,6 +142,13 @@ class KAT:
                 return Ext(table[sl.value])
             if isinstance(sl, ast.UnaryOp) and isinstance(sl.op, ast.USub) and isinstance(sl.operand, ast.Constant) and -sl.operand.value in table:
                 return Ext(table[-sl.operand.value])
+        if unparse(base) in self.image_like and isinstance(e.slice, ast.Tuple) and len(e.slice.elts) == 2:
+            for pos, ix in enumerate(e.slice.elts):
+                iv = self.ev(ix)
+                want = ROW if pos == 0 else COL
+                if isinstance(iv, Comp) and iv.axis != want:
+                    self.clash(e, f"`{unparse(e)[:60]}` indexes the {want} axis of a 2-D array with a {iv.axis}-axis index")
+            return None
         v = self.ev(base)
         sl = e.slice
         if isinstance(v, Seq):
@@ -181,6 +201,17 @@ class KAT:
                     pairs = [v for v in vals if isinstance(v, Pair)]
                     return pairs[0] if pairs else None
         l, r = self.ev(e.left), self.ev(e.right)
+        if isinstance(l, Flat) and isinstance(r, Ext) and op in (ast.FloorDiv, ast.Mod):
+            if r.axis != COL:
+                self.clash(e, f"`{unparse(e)[:60]}` decomposes a row-major flat index with the row extent")
+                return None
+            return Comp(ROW) if op is ast.FloorDiv else Comp(COL)
+        if isinstance(l, Pair) and isinstance(r, Ext) and op in (ast.Add, ast.Sub, ast.Mod, ast.Div, ast.FloorDiv):
+            self.clash(e, f"`{unparse(e)[:70]}` applies the {r.axis} extent to both components of a {l.order} pair")
+            return l
+        if op is ast.Mod and isinstance(l, Comp) and isinstance(r, Ext) and l.axis != r.axis:
+            self.clash(e, f"`{unparse(e)[:70]}` wraps a {l.axis}-axis quantity modulo the {r.axis} extent")
+            return l
         if op is ast.Mult and ((isinstance(l, Comp) and r is None) or (isinstance(r, Comp) and l is None)):
             return None  # multiplied by an unknown factor (a direction cosine …): no longer an axis quantity
         for a, b in ((l, r), (r, l)):
@@ -222,7 +253,7 @@ class KAT:
 
     def _call(self, e: ast.Call):
         cn = call_name(e) or ""
-        short = cn.split(".")[-1]
+        short = cn.split(".")[-1] if cn else (e.func.attr if isinstance(e.func, ast.Attribute) else "")
         args = e.args
         if short in ("arange", "fftfreq", "rfftfreq") and args:
             a = self.ev(args[0] if len(args) == 1 or short != "arange" else (args[1] if len(args) >= 2 and isinstance(self.ev(args[0]), Num) else args[0]))
@@ -257,6 +288,17 @@ class KAT:
             if isinstance(v, Comp) and short in ("reshape", "view", "squeeze", "unsqueeze", "expand", "broadcast_to"):
                 return Comp(v.axis)
             return v
+        if short == "mod" and len(args) == 2:
+            v, w = self.ev(args[0]), self.ev(args[1])
+            if isinstance(v, Comp) and isinstance(w, Ext) and v.axis != w.axis:
+                self.clash(e, f"`{unparse(e)[:70]}` wraps a {v.axis}-axis quantity modulo the {w.axis} extent")
+            return v
+        if short == "argmax":
+            return Flat()
+        if short == "unravel_index":
+            return Seq((Comp(ROW), Comp(COL)))
+        if short == "item" and isinstance(e.func, ast.Attribute):
+            return self.ev(e.func.value)
         if short == "flip" and isinstance(e.func, ast.Attribute):
             v = self.ev(e.func.value if not cn.startswith(("np.", "torch.")) else args[0])
             dims = args[-1] if args else kwarg(e, "dims")
